@@ -105,7 +105,7 @@ Proof.
   - unfold td_compress. rewrite Ec. eapply Inv_empty; eassumption.
   - unfold td_compress. destruct (d_cents d) as [|c0 cs] eqn:Ecs; [contradiction|].
     rewrite Et.
-    destruct (compress_cents_spec (d_comp d) W lo hi (c0 :: cs) Hf Nc) as (F & S & SW & NE & ONE).
+    destruct (compress_cents_spec (d_comp d) (d_min d) (d_max d) W lo hi (c0 :: cs) Hf Nc) as (F & S & SW & NE & ONE).
     eapply Inv_some with (lo := lo) (hi := hi) (W := W); cbn [d_cents d_min d_max d_total];
       try assumption; try reflexivity.
     + eapply Qeq_trans; [exact HW | symmetry; exact SW].
